@@ -426,6 +426,23 @@ class DocGen:
         spec["kind"] = "figure"
         return spec
 
+    def figure_grid(self, quick: bool) -> list:
+        """Figure documents of 1, 2 and 3 figures with title, footnote and source present under every combination of the three
+        placement options (quick: all 27 for one figure, the three diagonal ones for two figures)."""
+        import itertools
+
+        out = []
+        for n in (1, 2, 3):
+            for pt, pf, ps in itertools.product(["first", "last", "all"], repeat=3):
+                if quick and not (n == 1 or (n == 2 and pt == pf == ps)):
+                    continue
+                files = [self.image("png" if k % 2 == 0 else "jpeg") for k in range(n)]
+                out.append({"figure": {"files": files, "fig_width": 4.0, "fig_height": [3.0, 2.5]},
+                            "page": {"page_title": pt, "page_footnote": pf, "page_source": ps},
+                            "title": {"text": "T0 figure title"}, "footnote": {"text": "F0 note", "as_table": False},
+                            "source": {"text": "R0 src", "as_table": False}, "kind": "figure"})
+        return out
+
     def any_doc(self) -> dict:
         k = self.r.random()
         if k < 0.7:
